@@ -1,3 +1,204 @@
 import B6.Driver.Common
-/-! Driver for C29 — stub (the check for this property is not built yet). -/
-def main : IO Unit := B6.Driver.run { σ := Unit, init := (), step := fun s _ _ => (s, .bad) }
+import B6.Driver.PbfTokens
+import B6.Model.Osm
+/-!
+Driver for C29 (formats: `harness/cmd/c29/main.go`).
+
+  `source mem n element*`        answer `ok nf feature*` | `panic` | `err`    model: `ingest`, same order
+  `source pbf cores`             same input through a PBF file; `cores > 1`: compared as multisets;
+                                 `point` values may differ by one E7 unit (the file's granularity)
+  `world mem|pbf|compact c k id*` answer `ok nf feature*` sorted by ID          model: `world cw (ingest es)`
+  `key k`                        answer `k'`                                    model: `keyForOSMKey`
+
+The model is the rule set of the property (it mirrors the repaired code), so a feature that differs from
+the model's breaks the property: `propfail member-id` when a relation's members differ, `propfail rules`
+otherwise; a difference in the order of a feature's tags only is reported as `diff`.
+-/
+open B6.Driver B6.Model.Pbf B6.Model.Osm B6.Driver.PbfTokens
+namespace B6.Driver.C29
+
+def pFID : P FID := do
+  let t ← tok
+  match t.splitOn "/" with
+  | [ty, ns, v] =>
+    let ty ← (match ty with
+      | "pt" => pure FType.point | "pa" => pure FType.path | "ar" => pure FType.area | "re" => pure FType.relation
+      | _ => failure : P FType)
+    let ns ← (match ns with
+      | "n" => pure NS.node | "w" => pure NS.way | "r" => pure NS.relation
+      | _ => failure : P NS)
+    match v.toNat? with
+    | some n => if n < 18446744073709551616 then pure ⟨ty, ns, UInt64.ofNat n⟩ else failure
+    | none => failure
+  | _ => failure
+
+def pFTag : P FTag := do
+  let k ← pStr
+  let t ← tok
+  match t with
+  | "S" => do let s ← pStr; pure ⟨k, .str s⟩
+  | "P" => do let la ← pInt64; let lo ← pInt64; pure ⟨k, .point la lo⟩
+  | "I" => do let l ← counted pFID; pure ⟨k, .ids l⟩
+  | _ => failure
+
+def pFeature : P Feature := do
+  let t ← tok
+  match t with
+  | "G" => do let id ← pFID; let ts ← counted pFTag; pure (.generic id ts)
+  | "A" => do let id ← pFID; let ts ← counted pFTag; let ps ← counted (counted pFID); pure (.area id ts ps)
+  | "L" => do
+    let id ← pFID; let ts ← counted pFTag
+    let ms ← counted (do let m ← pFID; let r ← pStr; pure (m, r))
+    pure (.relation id ts ms)
+  | _ => failure
+
+def rFID (f : FID) : String :=
+  (match f.type with | .point => "pt" | .path => "pa" | .area => "ar" | .relation => "re") ++ "/" ++
+  (match f.ns with | .node => "n" | .way => "w" | .relation => "r") ++ "/" ++ toString f.value.toNat
+
+def rFTags (ts : List FTag) : List String :=
+  rCounted (fun t => rS t.key :: match t.value with
+    | .str s => ["S", rS s]
+    | .point la lo => ["P", rI la, rI lo]
+    | .ids l => "I" :: rCounted (fun i => [rFID i]) l) ts
+
+def rFeature : Feature → List String
+  | .generic id ts => ["G", rFID id] ++ rFTags ts
+  | .area id ts ps => ["A", rFID id] ++ rFTags ts ++ rCounted (fun p => rCounted (fun i => [rFID i]) p) ps
+  | .relation id ts ms => ["L", rFID id] ++ rFTags ts ++ rCounted (fun m => [rFID m.1, rS m.2]) ms
+
+def rFeatures (fs : List Feature) : String := " ".intercalate ("ok" :: rCounted rFeature fs)
+
+/-! comparison -/
+
+def near (tol : Nat) (a b : Int64) : Bool := (a.toInt - b.toInt).natAbs ≤ tol
+
+def tagEq (tol : Nat) (a b : FTag) : Bool :=
+  a.key == b.key && match a.value, b.value with
+    | .point la lo, .point la' lo' => near tol la la' && near tol lo lo'
+    | x, y => x == y
+
+def listEq {α : Type} (eq : α → α → Bool) : List α → List α → Bool
+  | [], [] => true
+  | a :: as, b :: bs => eq a b && listEq eq as bs
+  | _, _ => false
+
+/-- remove the first element matching `p` -/
+def removeFirst {α : Type} (p : α → Bool) : List α → Option (List α)
+  | [] => none
+  | x :: xs => if p x then some xs else (removeFirst p xs).map (x :: ·)
+
+def permEq {α : Type} (eq : α → α → Bool) : List α → List α → Bool
+  | [], bs => bs.isEmpty
+  | a :: as, bs =>
+    match removeFirst (eq a) bs with
+    | none => false
+    | some bs' => permEq eq as bs'
+
+/-- equality of features; `tagCmp` compares the tag lists -/
+def featEq (tagCmp : List FTag → List FTag → Bool) : Feature → Feature → Bool
+  | .generic i t, .generic i' t' => i == i' && tagCmp t t'
+  | .area i t p, .area i' t' p' => i == i' && tagCmp t t' && p == p'
+  | .relation i t m, .relation i' t' m' => i == i' && tagCmp t t' && m == m'
+  | _, _ => false
+
+def exact (tol : Nat) : Feature → Feature → Bool := featEq (listEq (tagEq tol))
+def modTagOrder (tol : Nat) : Feature → Feature → Bool := featEq (permEq (tagEq tol))
+
+/-- some relation feature of the implementation has no counterpart with the same ID and members in the model -/
+def memberMismatch (impl model : List Feature) : Bool :=
+  impl.any fun f => match f with
+    | .relation i _ m => !(model.any fun g => match g with
+        | .relation i' _ m' => i == i' && m == m'
+        | _ => false)
+    | _ => false
+
+def insertBy {α : Type} (lt : α → α → Bool) (x : α) : List α → List α
+  | [] => [x]
+  | y :: ys => if lt y x then y :: insertBy lt x ys else x :: y :: ys
+
+def sortBy {α : Type} (lt : α → α → Bool) (xs : List α) : List α := xs.foldr (insertBy lt) []
+
+/-- the first model feature without an equal implementation feature at the same place (ordered) / anywhere -/
+def firstMissing (ordered : Bool) (tol : Nat) (impl model : List Feature) : String :=
+  let rec go : List Feature → List Feature → String
+    | m :: ms, i :: is => if exact tol i m then go ms is else "model=[" ++ " ".intercalate (rFeature m) ++ "] impl=[" ++ " ".intercalate (rFeature i) ++ "]"
+    | m :: _, [] => "model=[" ++ " ".intercalate (rFeature m) ++ "] impl=[]"
+    | [], i :: _ => "model=[] impl=[" ++ " ".intercalate (rFeature i) ++ "]"
+    | [], [] => "?"
+  if ordered then go model impl else
+    match model.find? (fun m => !(impl.any fun i => exact tol i m)) with
+    | some m => "model=[" ++ " ".intercalate (rFeature m) ++ "] impl=none"
+    | none => match impl.find? (fun i => !(model.any fun m => exact tol i m)) with
+      | some i => "model=none impl=[" ++ " ".intercalate (rFeature i) ++ "]"
+      | none => "multiplicity"
+
+def judge (ordered : Bool) (tol : Nat) (impl model : List Feature) : Verdict :=
+  let cmp (eq : Feature → Feature → Bool) := if ordered then listEq eq impl model else permEq eq model impl
+  if cmp (exact tol) then .ok
+  else if cmp (modTagOrder tol) then .diff (rFeatures model)
+  else if memberMismatch impl model then .propfail ("member-id " ++ firstMissing ordered tol impl model)
+  else .propfail ("rules " ++ firstMissing ordered tol impl model)
+
+structure St where
+  es : List Element := []
+
+def parseImpl (impl : String) : Option (List Feature) :=
+  match words impl with
+  | "ok" :: rest => parseAll (counted pFeature) rest
+  | _ => none
+
+def modelAnswer : Except Fail (List Feature) → String
+  | .ok fs => rFeatures fs
+  | .error .panic => "panic"
+  | .error .err => "err"
+
+def step (st : St) (op impl : String) : St × Verdict :=
+  match words op with
+  | "source" :: "mem" :: rest =>
+    match parseAll (counted pElement) rest with
+    | none => (st, .bad)
+    | some es =>
+      let st := { st with es := es }
+      match ingest es with
+      | .ok fs =>
+        match parseImpl impl with
+        | some ifs => (st, judge true 0 ifs fs)
+        | none => (st, .propfail "rules")
+      | .error e => (st, if impl == modelAnswer (.error e) then .ok else .diff (modelAnswer (.error e)))
+  | ["source", "pbf", cs] =>
+    match cs.toNat?, ingest st.es with
+    | some c, .ok fs =>
+      match parseImpl impl with
+      | some ifs => (st, judge (c == 1) 1 ifs fs)
+      | none => (st, .propfail "rules")
+    | _, _ => (st, .bad)
+  | "world" :: kind :: _cores :: rest =>
+    match parseAll (counted pInt64) rest, ingest st.es with
+    | some cw, .ok fs =>
+      let model := sortBy (fun a b => rFID a.id < rFID b.id) (world (cw.map u) fs)
+      let tol := if kind == "mem" then 0 else 1
+      -- known finding `way-with-point-key`: exactly the paths of the ways in that class are missing
+      let dropped := (st.es.filter pointKeyWay).map fun e => match e with
+        | .way id _ _ => pathID id
+        | _ => pathID 0
+      match parseImpl impl with
+      | some ifs =>
+        if !dropped.isEmpty && listEq (exact tol) ifs (model.filter fun f => !dropped.contains f.id) then
+          (st, .propfail "way-dropped class=way-with-point-key")
+        else (st, judge true tol ifs model)
+      | none => (st, .propfail "rules")
+    | _, _ => (st, .bad)
+  | ["key", k] =>
+    match unhex k with
+    | some k =>
+      let m := rS (keyForOSMKey k)
+      (st, if impl == m then .ok else .propfail "key-mapping")
+    | none => (st, .bad)
+  | _ => (st, .bad)
+
+def family : Family := { σ := St, init := {}, step := step }
+
+end B6.Driver.C29
+
+def main : IO Unit := B6.Driver.run B6.Driver.C29.family
